@@ -148,6 +148,7 @@ def gen_cases(tier, seed):
                 continue
             for s in _divisors(nu, nv):
                 cases.append(dict(kind='tri', surf=name, shape=d, n=[nu, nv], spacing=s))
+    cases.append(dict(kind='session', name='convergence', n=[0, 0]))
     # ---- quads: tessellator used directly (as the library itself does) and set as the surface tessellator
     for name, d in surfs:
         for nu, nv in pairs:
@@ -202,6 +203,8 @@ def gen_cases(tier, seed):
 
 
 def case_weight(c):
+    if c.get('kind') == 'session':
+        return 40000
     nu, nv = c['n']
     w = nu * nv
     if c['kind'] == 'trim':
@@ -783,7 +786,26 @@ def _tessellate(ctx, obl, fn, rc, feats):
     return ctx.check(obl, True, rc, feats)
 
 
+def _session_cases(name, tier):
+    """long session: a convergence study - one surface tessellated with sample sizes 2..40 (39 distinct sizes, every admissible
+    spacing for a few of them), triangles and quads"""
+    sd = dict(_surfaces(tier))
+    out = []
+    for n in range(2, 41):
+        out.append(dict(kind='tri', surf='nurbs21', shape=sd['nurbs21'], n=[n, 2 + n % 5], spacing=1))
+        if n % 6 == 1:
+            for s_ in _divisors(n, n)[1:3]:
+                out.append(dict(kind='tri', surf='bsp32', shape=sd['bsp32'], n=[n, n], spacing=s_))
+        if n % 5 == 0:
+            out.append(dict(kind='quad', surf='nurbs21', shape=sd['nurbs21'], n=[n, 3]))
+    return out
+
+
 def run_case(case, ctx):
+    if case.get('kind') == 'session':
+        import sys
+        from .. import core
+        return core.run_session(sys.modules[__name__], ctx, case, _session_cases(case['name'], ctx.tier), 12)
     kind = case['kind']
     nu, nv = case['n']
     seed = ctx.seed
